@@ -68,6 +68,8 @@ def _mk():
     # several features in one place: a p-array indexed by a loop variable next to the whole p-array and a template parameter
     S["parray_indexed_by_loop_var_in_template"] = hdr + parr("p0", "float", 3) + parr("p1", "int", 3) + [
         "for int i in 0:2", "    Rgate(p0[i], {a}) | i", "    Dgate(p0, p0[i+1]*2, k=2*{a}+1, j=p1) | [i, p1[i]+50]"]
+    S["plain_array_A0_and_keyword_array_first"] = hdr + parr("A0", "float", 2) + parr("B", "float", 2) + parr("p0", "float", 2) + [
+        "Gate(k=B) | %(m)s", "Gate(B, p0, k=A0) | %(m)s", "Gate(j=A0, k=B) | %(m)s"]
     # a bare p (no digits) is an ordinary name
     # names that Python's int() would read as numbers but that are not "p followed by digits" (digit-group underscores, ...)
     S["pnames_with_digit_groups"] = hdr + parr("p1_0", "float", 2) + parr("p0_1", "int", 2) + parr("p1_", "float", 2) + parr("p10", "float", 2) + [
